@@ -240,8 +240,11 @@ func (b *Barrier) Wait() {
 }
 
 type Server struct {
-	addr      string
-	prevNonce []byte // nonce of the previous key exchange with this server (fault "previous-exchange")
+	// ClockOffset: seconds added to this server's clock when it stamps msg_ids (a server in 2040: ids with the top bit set)
+	ClockOffset int64
+	haveMsg     bool
+	addr        string
+	prevNonce   []byte // nonce of the previous key exchange with this server (fault "previous-exchange")
 	// RollingSalts > 0: that many of the next content-related messages each find their salt just retired (atomic)
 	RollingSalts int32
 	// SeqStart: where a connection's seq_no counter starts (a session that has been alive for a long time: the int32
@@ -380,11 +383,11 @@ func (s *Server) acceptLoop() {
 func (s *Server) nextMsgID(parity int64) int64 {
 	s.mu.Lock()
 	defer s.mu.Unlock()
-	id := (time.Now().Unix() << 32) | parity
-	if id <= s.lastMsg {
+	id := ((time.Now().Unix() + s.ClockOffset) << 32) | parity
+	if s.haveMsg && id <= s.lastMsg {
 		id = (s.lastMsg &^ 3) + 4 + parity
 	}
-	s.lastMsg = id
+	s.lastMsg, s.haveMsg = id, true
 	return id
 }
 
@@ -1080,6 +1083,46 @@ func (c *Conn) Send(body []byte, contentRelated bool) int64 {
 	}
 	c.WriteFrame(c.seal(id, seq, body))
 	return id
+}
+
+// Prepared is a message that has been given its msg_id and seq_no (stamped when the server created it) but has not
+// left yet.
+type Prepared struct {
+	c     *Conn
+	id    int64
+	seq   int32
+	ctor  uint32
+	n     int
+	frame []byte
+}
+
+// Prepare stamps and seals a message without sending it.
+func (c *Conn) Prepare(body []byte, contentRelated bool) *Prepared {
+	if c.key == nil || c.Closed() {
+		return nil
+	}
+	c.S.mu.Lock()
+	seq := c.nextSeq(contentRelated)
+	c.S.mu.Unlock()
+	parity := int64(1)
+	if len(body) >= 4 && binary.LittleEndian.Uint32(body) != IDRpcResult && contentRelated {
+		parity = 3
+	}
+	id := c.S.nextMsgID(parity)
+	ctor := uint32(0)
+	if len(body) >= 4 {
+		ctor = binary.LittleEndian.Uint32(body)
+	}
+	return &Prepared{c: c, id: id, seq: seq, ctor: ctor, n: len(body), frame: c.seal(id, seq, body)}
+}
+
+// Write sends a prepared message (possibly after messages that were stamped later).
+func (p *Prepared) Write() {
+	if p == nil {
+		return
+	}
+	p.c.S.log(Event{Kind: "sent", Conn: p.c.ID, MsgID: p.id, SeqNo: p.seq, Ctor: fmt.Sprintf("%08x", p.ctor), Len: p.n})
+	p.c.WriteFrame(p.frame)
 }
 
 // Redeliver sends the last content-related message of this connection once more, under the same msg_id and seq_no: what
